@@ -28,6 +28,41 @@ pub enum Case {
     NoMarker { prog: Program, enc_seed: u64, keep_blocks: Option<usize>, cut_inside_last: bool },
 }
 
+/// archive source whose visible length can be reduced after the archive was opened
+struct ShrinkSrc<'a> {
+    data: &'a [u8],
+    pos: u64,
+    limit: std::rc::Rc<std::cell::Cell<usize>>,
+}
+
+impl io::Read for ShrinkSrc<'_> {
+    fn read(&mut self, b: &mut [u8]) -> io::Result<usize> {
+        crate::alloc::EVENTS.fetch_add(1, std::sync::atomic::Ordering::Relaxed);
+        let end = self.limit.get().min(self.data.len());
+        let p = (self.pos as usize).min(end);
+        let n = b.len().min(end - p);
+        b[..n].copy_from_slice(&self.data[p..p + n]);
+        self.pos += n as u64;
+        Ok(n)
+    }
+}
+
+impl io::Seek for ShrinkSrc<'_> {
+    fn seek(&mut self, s: io::SeekFrom) -> io::Result<u64> {
+        let end = self.limit.get().min(self.data.len()) as i128;
+        let t = match s {
+            io::SeekFrom::Start(x) => x as i128,
+            io::SeekFrom::Current(x) => self.pos as i128 + x as i128,
+            io::SeekFrom::End(x) => end + x as i128,
+        };
+        if t < 0 {
+            return Err(io::Error::new(io::ErrorKind::InvalidInput, "seek before start"));
+        }
+        self.pos = t as u64;
+        Ok(self.pos)
+    }
+}
+
 /// sink accepting part of each write
 struct PartSink {
     buf: Vec<u8>,
@@ -256,6 +291,7 @@ pub fn run_case(ctx: &mut Ctx, c: &Case) {
                 stream.push(0);
             }
             ctx.count(&format!("no_marker:{}", match (keep_blocks, cut_inside_last) { (None, _) => "all_blocks", (Some(_), false) => "cut_at_block_edge", _ => "cut_inside_block" }));
+            let blocks_len = stream.len();
             stream.extend(fmt::enc_footer(&footer));
             // A linear reader only sees typed blocks: if the bytes of the footer, read as
             // blocks, happen to lead to a 0xFE type byte, no reader can tell (format coincidence)
@@ -288,6 +324,29 @@ pub fn run_case(ctx: &mut Ctx, c: &Case) {
                 Ok(Ok(true)) => ctx.violation("C12", &format!("success-without-end-marker:layers{}", p.layers), scen(), json!({"files": names.len(), "keep_blocks": keep_blocks})),
                 Ok(Err(e)) => ctx.violation("C12", "no-marker-harness", scen(), json!({"message": e})),
                 Err((loc, msg)) => ctx.violation("C08", &format!("panic:{loc}:{}", crate::ctx::msg_class(&msg)), scen(), json!({"panic": msg, "during": "linear_extract on a marker-less archive"})),
+            }
+            // the same block stream with NOTHING after the last kept block: the archive is opened in full, then the
+            // source ends exactly between two blocks (a file that is still being copied, a short pipe):
+            // the end-of-data marker is never met, so the extraction has to fail
+            if p.layers == 0 && !*cut_inside_last {
+                let limit = std::rc::Rc::new(std::cell::Cell::new(raw.len()));
+                let cut_at = raw.len() - (stream.len() - blocks_len);
+                let r = guarded(|| -> Result<bool, String> {
+                    let src = ShrinkSrc { data: &raw, pos: 0, limit: limit.clone() };
+                    let mut ar = match drv::open(src, &sks) {
+                        Ok(a) => a,
+                        Err(_) => return Ok(false),
+                    };
+                    limit.set(cut_at);
+                    let mut export: HashMap<&String, Vec<u8>> = names.iter().map(|n| (n, Vec::new())).collect();
+                    Ok(mla::helpers::linear_extract(&mut ar, &mut export).is_ok())
+                });
+                match r {
+                    Ok(Ok(false)) => ctx.count("held:source_ending_between_two_blocks_refused"),
+                    Ok(Ok(true)) => ctx.violation("C12", "success-without-end-marker:source-ends-between-blocks:layers0", scen(), json!({"files": names.len(), "keep_blocks": keep_blocks, "source_ends_at": cut_at})),
+                    Ok(Err(e)) => ctx.violation("C12", "no-marker-harness", scen(), json!({"message": e})),
+                    Err((loc, msg)) => ctx.violation("C08", &format!("panic:{loc}:{}", crate::ctx::msg_class(&msg)), scen(), json!({"panic": msg, "during": "linear_extract on a source ending between two blocks"})),
+                }
             }
         }
     }
